@@ -1368,7 +1368,9 @@ def _check_versions(w, plan, res, client):
     adv = None
     adv_seq = None
     for e in cl.reqlog:
-        if e["key"] == kwire.API_VERSIONS and e.get("advertised") is not None and e.get("delivered_seq") is not None and adv is None:
+        if e["key"] == kwire.API_VERSIONS and e.get("advertised") is not None and e.get("delivered_seq") is not None and \
+                (adv is None or e["delivered_seq"] < adv_seq):
+            # (the answer that reached the client first - overlapping discoveries are answered on several connections)
             adv = {k: (a, b) for k, a, b in e["advertised"]}
             adv_seq = e["delivered_seq"]
     for e in cl.reqlog:
